@@ -114,6 +114,19 @@ static void trk_forget(uint64_t s) { (void)s; }
 static void trk_window(void) {}
 #endif
 
+/* ------------------------------------------------------------------ allocation-failure injection (variant "fa": the library's allocation requests arrive here) */
+int fa_k = 0;               /* the k-th request of every call window fails (0 = off); set by the control request "__failalloc" */
+static int fa_count = 0;    /* requests seen in the current window */
+int fa_hit = 0;             /* the injected failure happened in this window */
+#ifdef XDRV_FA
+static int fa_fail(void) { if (!trk_on || fa_k <= 0) return 0; if (++fa_count == fa_k) { fa_hit = 1; errno = ENOMEM; return 1; } return 0; }
+void *xv_malloc(size_t n) { return fa_fail() ? NULL : malloc(n); }
+void *xv_calloc(size_t a, size_t b) { return fa_fail() ? NULL : calloc(a, b); }
+void *xv_realloc(void *o, size_t n) { return fa_fail() ? NULL : realloc(o, n); }
+char *xv_strdup(const char *s_) { if (fa_fail()) return NULL; return strdup(s_); }
+char *xv_strndup(const char *s_, size_t n) { if (fa_fail()) return NULL; return strndup(s_, n); }
+#endif
+
 /* ------------------------------------------------------------------ sanitizer hooks */
 volatile int san_hit = 0;
 #ifdef XDRV_SAN
@@ -233,6 +246,11 @@ int main(int argc, char **argv) {
         const fn_t *f = NULL; const op_t *op = NULL;
         if (opcode == 0) { for (int k = 0; k < nfntab; k++) if (!strcmp(fntab[k].name, name)) { f = &fntab[k]; break; } }
         else if (opcode == 1) { for (int k = 0; k < noptab; k++) if (!strcmp(optab[k].name, name)) { op = &optab[k]; break; } }
+        if (!f && !op && !strcmp(name, "__failalloc")) {          /* control request: arm / disarm the allocation-failure injection */
+            fa_k = (n && ncols) ? cols[0].i[0] : 0;
+            uint32_t r[2] = { 0x31535258u, n }; fwrite(r, 4, 2, proto); fwrite(out, sizeof *out, n, proto);
+            uint32_t bl0 = 0; fwrite(&bl0, 4, 1, proto); fflush(proto); free(out); continue;
+        }
         if (!f && !op) {
             uint32_t r[2] = { 0x31535258u, 0xFFFFFFFFu }; fwrite(r, 4, 2, proto); fflush(proto); free(out); continue;
         }
@@ -247,6 +265,7 @@ int main(int argc, char **argv) {
             uint64_t seq0 = trk_seq; long live0 = trk_live;
             if (stackfill >= 0) scribble_stack(stackfill);
             trk_window(); trk_on = 1;
+            fa_count = 0; fa_hit = 0;
             if (errno_preset >= 0) errno = errno_preset;
             if (f) f->call(j, r, m == 1 ? NULL : &e);
             else op->call(j, r, m == 1 ? NULL : &e);
@@ -277,6 +296,7 @@ int main(int argc, char **argv) {
 #endif
             if (errfd >= 0 && lseek(errfd, 0, SEEK_CUR) != pos0) r->flags |= F_STDERR;
             if (san_hit) r->flags |= F_SAN;
+            if (fa_hit) r->flags |= F_ALLOCFAIL;
         }
         if (errfd >= 0 && (mode & 16)) {   /* return captured stderr text */
             off_t end = lseek(errfd, 0, SEEK_CUR); char *b = malloc(end + 1);
